@@ -1,21 +1,38 @@
 //! C15, loopback-TCP part: the built-in accept loops (`serve_listener`,
 //! `serve_listener_with_graceful_drain`) — handshake failures, graceful drain,
 //! drain-deadline abort (`JoinSet::shutdown`), with a raw tungstenite client.
+//!
+//! Also: `serve_listener_with_shutdown` whose shutdown future resolves while the
+//! accepted connections are alive (the loop returns, the connections keep being
+//! served and end by their own causes; the server runtime is kept alive by a second
+//! stop signal), the address-taking twins `serve` / `serve_with_shutdown` /
+//! `serve_with_graceful_drain` (port reserved by bind(0)+drop, server awaited by a
+//! connect-retry probe, bind failures retried on another port), and the co-hosting
+//! accept helpers (`WebSocketServer::accept*`, `SharedWebSocketServer::accept*`)
+//! inside an accept loop the harness owns, each followed by its `serve_connection*`.
+//! Every scenario listens on (and its clients connect from) a loopback address of
+//! its own, 127.x.y.z: a connection attempt made after a listener was closed can
+//! never reach the listener of another scenario running in parallel, and neither
+//! the listeners' bind(0) nor the clients depend on the ephemeral port range of
+//! 127.0.0.1 (which can be exhausted by TIME_WAIT sockets of other processes on a
+//! busy machine: "Address already in use" from bind(0)).
 
 use super::mem::{cause_frame, next_msg, request};
 use super::{
-    Cause, Cell, ConnFacts, Ev, NOCONN, Outcome, PHASES, Phase, Plan, SHORT_WATCHDOG, WATCHDOG, World, build_server, bump, cell_from_json, cell_json,
-    evaluate, skip_reason,
+    Bad, Cause, Cell, ConnFacts, Ev, NOCONN, Outcome, PHASES, Phase, Plan, SHORT_WATCHDOG, WATCHDOG, World, build_server, bump, cell_from_json,
+    cell_json, evaluate, skip_reason,
 };
 use crate::ctx::Tier;
 use crate::wsh::Got;
 use futures_util::SinkExt;
+use repe::websocket_server::{ShutdownToken, WebSocketServer};
 use serde_json::{Value, json};
 use std::collections::BTreeMap;
-use std::net::SocketAddr;
-use std::sync::Arc;
-use std::sync::atomic::Ordering;
-use std::time::Duration;
+use std::net::{Ipv4Addr, SocketAddr};
+use std::sync::atomic::{AtomicU32, Ordering};
+use std::sync::{Arc, Mutex};
+use std::time::{Duration, Instant};
+use tokio::task::AbortHandle;
 use tokio::io::{AsyncReadExt, AsyncWriteExt};
 use tokio::net::{TcpSocket, TcpStream};
 use tokio_tungstenite::WebSocketStream;
@@ -49,12 +66,133 @@ pub(crate) enum Deadline {
 }
 const DEADLINES: [Deadline; 3] = [Deadline::Generous, Deadline::Zero, Deadline::Short];
 
+/// A co-hosting accept helper, and the `serve_connection*` call it is paired with.
+#[derive(Clone, Copy, Debug, PartialEq, Eq)]
+pub(crate) enum Helper {
+    /// `WebSocketServer::accept` -> `serve_connection`
+    Accept,
+    /// `WebSocketServer::accept_with_limits` -> `serve_connection_with_cancel`
+    AcceptWithLimits,
+    /// `WebSocketServer::accept_with_handshake` -> `serve_connection_with_handshake`
+    AcceptWithHandshake,
+    /// `WebSocketServer::accept_with_handshake_and_limits` -> `serve_connection_with_cancel_and_handshake`
+    AcceptWithHandshakeAndLimits,
+    /// `SharedWebSocketServer::accept` -> `serve_connection_with_cancel`
+    SharedAccept,
+    /// `SharedWebSocketServer::accept_with_handshake` -> `serve_connection_with_handshake`
+    SharedAcceptWithHandshake,
+}
+pub(crate) const HELPERS: [Helper; 6] =
+    [Helper::Accept, Helper::AcceptWithLimits, Helper::AcceptWithHandshake, Helper::AcceptWithHandshakeAndLimits, Helper::SharedAccept, Helper::SharedAcceptWithHandshake];
+
+impl Helper {
+    fn has_handshake(self) -> bool {
+        matches!(self, Helper::AcceptWithHandshake | Helper::AcceptWithHandshakeAndLimits | Helper::SharedAcceptWithHandshake)
+    }
+    fn has_token(self) -> bool {
+        matches!(self, Helper::AcceptWithLimits | Helper::AcceptWithHandshakeAndLimits | Helper::SharedAccept)
+    }
+    fn pairing(self) -> &'static str {
+        match self {
+            Helper::Accept => "WebSocketServer::accept -> serve_connection",
+            Helper::AcceptWithLimits => "WebSocketServer::accept_with_limits -> serve_connection_with_cancel",
+            Helper::AcceptWithHandshake => "WebSocketServer::accept_with_handshake -> serve_connection_with_handshake",
+            Helper::AcceptWithHandshakeAndLimits => "WebSocketServer::accept_with_handshake_and_limits -> serve_connection_with_cancel_and_handshake",
+            Helper::SharedAccept => "SharedWebSocketServer::accept -> serve_connection_with_cancel",
+            Helper::SharedAcceptWithHandshake => "SharedWebSocketServer::accept_with_handshake -> serve_connection_with_handshake",
+        }
+    }
+}
+
 #[derive(Clone, Copy, Debug, PartialEq, Eq)]
 pub(crate) enum Loop {
     /// `serve_listener`: every good connection ends by its own cause
     Listener,
     /// `serve_listener_with_graceful_drain`: all good connections are ended by the drain
     Drain(Deadline),
+    /// `serve_listener_with_shutdown` whose shutdown future resolves while the connections
+    /// are alive in their phases: the loop returns, then every connection ends by its own cause
+    ListenerShutdown,
+    /// `serve(addr, path)`: as `Listener`
+    Addr,
+    /// `serve_with_shutdown(addr, path, fut)`: as `ListenerShutdown`
+    AddrShutdown,
+    /// `serve_with_graceful_drain(addr, path, fut, timeout)`: as `Drain`
+    AddrDrain(Deadline),
+    /// an accept loop owned by the harness: TCP accept, the helper, then the paired
+    /// `serve_connection*`; every good connection ends by its own cause
+    Accept(Helper),
+}
+
+impl Loop {
+    fn name(self) -> String {
+        match self {
+            Loop::Listener => "serve_listener".into(),
+            Loop::Drain(d) => format!("{d:?}"),
+            Loop::ListenerShutdown => "serve_listener_with_shutdown".into(),
+            Loop::Addr => "serve".into(),
+            Loop::AddrShutdown => "serve_with_shutdown".into(),
+            Loop::AddrDrain(d) => format!("serve_with_graceful_drain:{d:?}"),
+            Loop::Accept(h) => format!("accept:{h:?}"),
+        }
+    }
+    fn parse(s: &str) -> Option<Loop> {
+        let deadline = |d: &str| DEADLINES.iter().copied().find(|x| format!("{x:?}") == d);
+        Some(match s {
+            "serve_listener" => Loop::Listener,
+            "serve_listener_with_shutdown" => Loop::ListenerShutdown,
+            "serve" => Loop::Addr,
+            "serve_with_shutdown" => Loop::AddrShutdown,
+            _ => {
+                if let Some(d) = s.strip_prefix("serve_with_graceful_drain:") {
+                    Loop::AddrDrain(deadline(d)?)
+                } else if let Some(h) = s.strip_prefix("accept:") {
+                    Loop::Accept(HELPERS.iter().copied().find(|x| format!("{x:?}") == h)?)
+                } else {
+                    Loop::Drain(deadline(s)?)
+                }
+            }
+        })
+    }
+    /// the good connections are ended by the loop's drain
+    fn drain(self) -> Option<Deadline> {
+        match self {
+            Loop::Drain(d) | Loop::AddrDrain(d) => Some(d),
+            _ => None,
+        }
+    }
+    /// the shutdown future resolves while the connections are alive and the loop returns without ending them
+    fn shutdown_midlife(self) -> bool {
+        matches!(self, Loop::ListenerShutdown | Loop::AddrShutdown)
+    }
+    fn by_addr(self) -> bool {
+        matches!(self, Loop::Addr | Loop::AddrShutdown | Loop::AddrDrain(_))
+    }
+    fn has_handshake(self) -> bool {
+        match self {
+            Loop::Accept(h) => h.has_handshake(),
+            _ => true,
+        }
+    }
+    fn via(self, workers: usize) -> String {
+        let rt = if workers == 0 { "current-thread" } else { "multi-thread" };
+        match self {
+            Loop::Listener => "tcp:serve_listener".to_string(),
+            Loop::Drain(d) => format!("tcp:graceful_drain:{d:?}:{rt}"),
+            Loop::ListenerShutdown => format!("tcp:serve_listener_with_shutdown(resolves mid-life):{rt}"),
+            Loop::Addr => "tcp:serve(addr)".to_string(),
+            Loop::AddrShutdown => format!("tcp:serve_with_shutdown(addr, resolves mid-life):{rt}"),
+            Loop::AddrDrain(d) => format!("tcp:serve_with_graceful_drain(addr):{d:?}:{rt}"),
+            Loop::Accept(h) => format!("tcp:{}", h.pairing()),
+        }
+    }
+}
+
+static NEXT_ADDRESS: AtomicU32 = AtomicU32::new(0);
+/// A loopback address no other scenario of this process listens on.
+fn own_loopback_address() -> Ipv4Addr {
+    let n = NEXT_ADDRESS.fetch_add(1, Ordering::Relaxed);
+    Ipv4Addr::new(127, 1 + ((n >> 16) % 200) as u8, (n >> 8) as u8, n as u8)
 }
 
 #[derive(Clone, Copy, Debug, PartialEq, Eq)]
@@ -69,14 +207,17 @@ pub(crate) struct TcpScenario {
     /// worker threads of the server runtime; 0 = current-thread runtime
     pub workers: usize,
     pub conns: Vec<TConn>,
+    /// own-cause rows: end the connections in reverse order of acceptance
+    pub reverse_end: bool,
 }
 
 impl TcpScenario {
     pub(crate) fn to_json(&self) -> Value {
         json!({
             "kind": "tcp",
-            "loop": match self.lp { Loop::Listener => "serve_listener".to_string(), Loop::Drain(d) => format!("{d:?}") },
+            "loop": self.lp.name(),
             "workers": self.workers,
+            "reverse_end": self.reverse_end,
             "conns": self.conns.iter().map(|c| match c {
                 TConn::Good(cell) => cell_json(cell),
                 TConn::Fail(f) => json!({"fail": format!("{f:?}")}),
@@ -84,10 +225,7 @@ impl TcpScenario {
         })
     }
     pub(crate) fn from_json(v: &Value) -> Result<TcpScenario, String> {
-        let lp = match v["loop"].as_str().ok_or("loop")? {
-            "serve_listener" => Loop::Listener,
-            d => Loop::Drain(DEADLINES.iter().copied().find(|x| format!("{x:?}") == d).ok_or("deadline")?),
-        };
+        let lp = Loop::parse(v["loop"].as_str().ok_or("loop")?).ok_or("loop name")?;
         let mut conns = Vec::new();
         for c in v["conns"].as_array().ok_or("conns")? {
             if let Some(f) = c.get("fail").and_then(|f| f.as_str()) {
@@ -96,12 +234,34 @@ impl TcpScenario {
                 conns.push(TConn::Good(cell_from_json(c)?));
             }
         }
-        Ok(TcpScenario { lp, workers: v["workers"].as_u64().unwrap_or(4) as usize, conns })
+        Ok(TcpScenario { lp, workers: v["workers"].as_u64().unwrap_or(4) as usize, conns, reverse_end: v["reverse_end"].as_bool().unwrap_or(false) })
     }
+}
+
+/// `via` fragments every one of which must have served at least one connection.
+pub(crate) fn entry_points() -> Vec<String> {
+    let mut v: Vec<String> = vec![
+        "tcp:serve_listener".into(),
+        "tcp:graceful_drain:".into(),
+        "tcp:serve_listener_with_shutdown(resolves mid-life):multi-thread".into(),
+        "tcp:serve_listener_with_shutdown(resolves mid-life):current-thread".into(),
+        "tcp:serve(addr)".into(),
+        "tcp:serve_with_shutdown(addr, resolves mid-life):".into(),
+        "tcp:serve_with_graceful_drain(addr):Generous".into(),
+        "tcp:serve_with_graceful_drain(addr):Zero".into(),
+        "tcp:serve_with_graceful_drain(addr):Short".into(),
+    ];
+    for h in HELPERS {
+        v.push(format!("tcp:{}", h.pairing()));
+    }
+    v
 }
 
 pub(crate) fn bound(tier: Tier) -> Value {
     json!({
+        "serve_listener_with_shutdown": format!("shutdown future resolves with 1 connection in every executable own-cause cell (cause x Idle/Inline/Off/Connect; Idle/Off also on a current-thread runtime), 2 connections ({}; every third pair with a failed handshake in between; both ending orders), 3 connections ({})", tier.pick("a covering selection of ordered pairs", "every ordered pair of cells"), tier.pick("a covering selection of triples of cells", "every triple of causes, phases from a fixed covering rule")),
+        "address_taking_loops": format!("serve(addr): {} x one failed handshake; serve_with_shutdown(addr): the same cells with 1 and 2 connections; serve_with_graceful_drain(addr): phase tuples of length 1..{} over Idle/Inline/Off/Connect x Generous/Zero, Outbound x Short, failed and stalled handshakes mixed in", tier.pick("one cell per cause (phase rotating)", "every own-cause cell"), tier.pick(2, 3)),
+        "accept_helpers": format!("each of the 6 helpers, followed by its serve_connection* call: every executable own-cause cell (incl. Cancel where the paired call takes a token, and Abort of the embedder's task) x {}; plus one accept loop with 3 good connections and all 4 failing kinds on a multi-thread and a current-thread runtime", tier.pick("one failed handshake (kind and position rotating)", "all 4 failing handshake kinds x both positions")),
         "serve_listener": "every executable (cause, phase in Idle/Inline/Off/Connect) cell x one failed handshake (kind and position rotating; thorough: all kinds x both positions)",
         "graceful_drain": format!("phase tuples of length 1..{} over Idle/Inline/Off/Connect x deadline Generous/Zero on a 4-worker runtime, Idle/Off tuples also on a current-thread runtime, Outbound (peer not reading, responses > socket buffers) x Short/Zero, failed and stalled handshakes mixed in", tier.pick(2, 3)),
     })
@@ -131,12 +291,12 @@ pub(crate) fn enumerate(tier: Tier, skipped: &mut BTreeMap<String, u64>) -> Vec<
                 Tier::Quick => {
                     let f = TConn::Fail(kinds[k % kinds.len()]);
                     let conns = if (k / kinds.len()) % 2 == 0 { vec![f, TConn::Good(cell)] } else { vec![TConn::Good(cell), f] };
-                    v.push(TcpScenario { lp: Loop::Listener, workers: 4, conns });
+                    v.push(TcpScenario { lp: Loop::Listener, workers: 4, conns, reverse_end: false });
                 }
                 Tier::Thorough => {
                     for f in kinds {
-                        v.push(TcpScenario { lp: Loop::Listener, workers: 4, conns: vec![TConn::Fail(f), TConn::Good(cell)] });
-                        v.push(TcpScenario { lp: Loop::Listener, workers: 4, conns: vec![TConn::Good(cell), TConn::Fail(f)] });
+                        v.push(TcpScenario { lp: Loop::Listener, workers: 4, conns: vec![TConn::Fail(f), TConn::Good(cell)], reverse_end: false });
+                        v.push(TcpScenario { lp: Loop::Listener, workers: 4, conns: vec![TConn::Good(cell), TConn::Fail(f)], reverse_end: false });
                     }
                 }
             }
@@ -156,6 +316,7 @@ pub(crate) fn enumerate(tier: Tier, skipped: &mut BTreeMap<String, u64>) -> Vec<
             TConn::Good(Cell { cause: Cause::InlinePanic, phase: Phase::Inline }),
             TConn::Fail(Fail::EarlyClose),
         ],
+        reverse_end: false,
     });
     // ---- graceful drain
     let drain_cell = |phase| TConn::Good(Cell { cause: Cause::Drain, phase });
@@ -172,9 +333,9 @@ pub(crate) fn enumerate(tier: Tier, skipped: &mut BTreeMap<String, u64>) -> Vec<
             }
             let blocking = phases.iter().any(|p| matches!(p, Phase::Inline | Phase::Connect));
             for d in [Deadline::Generous, Deadline::Zero] {
-                v.push(TcpScenario { lp: Loop::Drain(d), workers: 4, conns: phases.iter().map(|p| drain_cell(*p)).collect() });
+                v.push(TcpScenario { lp: Loop::Drain(d), workers: 4, conns: phases.iter().map(|p| drain_cell(*p)).collect(), reverse_end: false });
                 if !blocking {
-                    v.push(TcpScenario { lp: Loop::Drain(d), workers: 0, conns: phases.iter().map(|p| drain_cell(*p)).collect() });
+                    v.push(TcpScenario { lp: Loop::Drain(d), workers: 0, conns: phases.iter().map(|p| drain_cell(*p)).collect(), reverse_end: false });
                 }
             }
         }
@@ -183,8 +344,8 @@ pub(crate) fn enumerate(tier: Tier, skipped: &mut BTreeMap<String, u64>) -> Vec<
     bump(skipped, "DrainxOutbound@graceful_drain(Generous): the blocked writer would hold the drain for the whole 30 s deadline");
     for d in [Deadline::Short, Deadline::Zero] {
         for workers in [4, 0] {
-            v.push(TcpScenario { lp: Loop::Drain(d), workers, conns: vec![drain_cell(Phase::Outbound)] });
-            v.push(TcpScenario { lp: Loop::Drain(d), workers, conns: vec![drain_cell(Phase::Off), drain_cell(Phase::Outbound), drain_cell(Phase::Idle)] });
+            v.push(TcpScenario { lp: Loop::Drain(d), workers, conns: vec![drain_cell(Phase::Outbound)], reverse_end: false });
+            v.push(TcpScenario { lp: Loop::Drain(d), workers, conns: vec![drain_cell(Phase::Off), drain_cell(Phase::Outbound), drain_cell(Phase::Idle)], reverse_end: false });
         }
     }
     // failed / unfinished handshakes in a draining server
@@ -193,20 +354,227 @@ pub(crate) fn enumerate(tier: Tier, skipped: &mut BTreeMap<String, u64>) -> Vec<
             lp: Loop::Drain(Deadline::Zero),
             workers,
             conns: vec![TConn::Fail(Fail::Stalled), drain_cell(Phase::Idle), TConn::Fail(Fail::WrongPath), drain_cell(Phase::Off)],
+            reverse_end: false,
         });
         v.push(TcpScenario {
             lp: Loop::Drain(Deadline::Generous),
             workers,
             conns: vec![TConn::Fail(Fail::NotUpgrade), drain_cell(Phase::Off), TConn::Fail(Fail::EarlyClose), drain_cell(Phase::Idle), TConn::Fail(Fail::Garbage)],
+            reverse_end: false,
         });
+    }
+    enumerate_entry_points(tier, skipped, &mut v);
+    v
+}
+
+const PH4: [Phase; 4] = [Phase::Idle, Phase::Inline, Phase::Off, Phase::Connect];
+const KINDS: [Fail; 4] = [Fail::WrongPath, Fail::NotUpgrade, Fail::Garbage, Fail::EarlyClose];
+
+/// The cells a connection served over TCP can be ended by on its own (`Outbound` needs a
+/// non-reading peer and multi-MiB responses: in memory and in the drain rows).
+fn own_cells(has_token: bool, has_handshake: bool, abortable: bool, at: &str, skipped: &mut BTreeMap<String, u64>) -> Vec<Cell> {
+    let mut v = Vec::new();
+    for &cause in &super::CAUSES {
+        for &phase in &PH4 {
+            if let Some(r) = skip_reason(cause, phase, has_token, has_handshake) {
+                bump(skipped, format!("{cause:?}x{phase:?}@{at}: {r}"));
+            } else if cause == Cause::Drain {
+                bump(skipped, format!("{cause:?}x{phase:?}@{at}: cancel-then-abort by the embedder is decided in memory"));
+            } else if cause == Cause::Abort && !abortable {
+                bump(skipped, format!("{cause:?}x{phase:?}@{at}: the accept loop's connection tasks are detached; nobody holds a JoinHandle to abort"));
+            } else {
+                v.push(Cell { cause, phase });
+            }
+        }
     }
     v
 }
 
+/// One cell per cause, the phase rotating with `salt`.
+fn one_cell_per_cause(cells: &[Cell], salt: usize) -> Vec<Cell> {
+    let mut v: Vec<Cell> = Vec::new();
+    let mut causes: Vec<Cause> = Vec::new();
+    for c in cells {
+        if !causes.contains(&c.cause) {
+            causes.push(c.cause);
+        }
+    }
+    for (i, cause) in causes.iter().enumerate() {
+        let of: Vec<&Cell> = cells.iter().filter(|c| c.cause == *cause).collect();
+        v.push(*of[(i + salt) % of.len()]);
+    }
+    v
+}
+
+/// Rows for the entry points the accept-loop rows above do not reach.
+fn enumerate_entry_points(tier: Tier, skipped: &mut BTreeMap<String, u64>, v: &mut Vec<TcpScenario>) {
+    let good = |c: &Cell| TConn::Good(*c);
+    let needs_worker = |c: &Cell| matches!(c.phase, Phase::Inline | Phase::Connect);
+    // ---- (1) serve_listener_with_shutdown, the future resolving while the connections live
+    let cells = own_cells(false, true, false, "serve_listener_with_shutdown", skipped);
+    let n = cells.len();
+    for c in &cells {
+        v.push(TcpScenario { lp: Loop::ListenerShutdown, workers: 4, conns: vec![good(c)], reverse_end: false });
+        if !needs_worker(c) {
+            v.push(TcpScenario { lp: Loop::ListenerShutdown, workers: 0, conns: vec![good(c)], reverse_end: false });
+        }
+    }
+    bump(skipped, "Inline/Connect@serve_listener_with_shutdown on a current-thread runtime: the parked callback occupies the only thread, the shutdown future cannot be polled");
+    let mut k = 0usize;
+    let pair = |v: &mut Vec<TcpScenario>, lp: Loop, a: &Cell, b: &Cell, k: usize| {
+        // every third pair has a failed handshake between the two good connections
+        let conns = if k % 3 == 0 { vec![good(a), TConn::Fail(KINDS[(k / 3) % KINDS.len()]), good(b)] } else { vec![good(a), good(b)] };
+        v.push(TcpScenario { lp, workers: 4, conns, reverse_end: k % 2 == 1 });
+    };
+    match tier {
+        Tier::Quick => {
+            for i in 0..n {
+                pair(v, Loop::ListenerShutdown, &cells[i], &cells[(i * 11 + 5) % n], k);
+                k += 1;
+            }
+            for i in 0..n {
+                v.push(TcpScenario {
+                    lp: Loop::ListenerShutdown,
+                    workers: 4,
+                    conns: vec![good(&cells[i]), good(&cells[(i + 12) % n]), good(&cells[(i + 23) % n])],
+                    reverse_end: i % 2 == 1,
+                });
+            }
+        }
+        Tier::Thorough => {
+            for a in &cells {
+                for b in &cells {
+                    pair(v, Loop::ListenerShutdown, a, b, k);
+                    k += 1;
+                }
+            }
+            // every triple of causes, phases from a fixed covering rule
+            let causes: Vec<Cause> = one_cell_per_cause(&cells, 0).iter().map(|c| c.cause).collect();
+            for (i, &a) in causes.iter().enumerate() {
+                for (j, &b) in causes.iter().enumerate() {
+                    for (l, &c) in causes.iter().enumerate() {
+                        let ph = |cause: Cause, salt: usize| -> Cell {
+                            let phase = if matches!(cause, Cause::ConnPanic1 | Cause::ConnPanic2 | Cause::ConnPanicH) { Phase::Connect } else { PH4[(i + 2 * j + 3 * l + salt) % PH4.len()] };
+                            Cell { cause, phase }
+                        };
+                        v.push(TcpScenario {
+                            lp: Loop::ListenerShutdown,
+                            workers: 4,
+                            conns: vec![good(&ph(a, 0)), good(&ph(b, 1)), good(&ph(c, 2))],
+                            reverse_end: (i + j + l) % 2 == 1,
+                        });
+                    }
+                }
+            }
+        }
+    }
+    // ---- (2) the address-taking twins on a reduced cell set
+    let reduced: Vec<Cell> = match tier {
+        Tier::Quick => one_cell_per_cause(&cells, 1),
+        Tier::Thorough => cells.clone(),
+    };
+    for (i, c) in reduced.iter().enumerate() {
+        let f = TConn::Fail(KINDS[i % KINDS.len()]);
+        let conns = if (i / KINDS.len()) % 2 == 0 { vec![f, good(c)] } else { vec![good(c), f] };
+        v.push(TcpScenario { lp: Loop::Addr, workers: 4, conns, reverse_end: false });
+    }
+    let reduced2: Vec<Cell> = match tier {
+        Tier::Quick => one_cell_per_cause(&cells, 2),
+        Tier::Thorough => cells.clone(),
+    };
+    for (i, c) in reduced2.iter().enumerate() {
+        v.push(TcpScenario { lp: Loop::AddrShutdown, workers: 4, conns: vec![good(c)], reverse_end: false });
+        if !needs_worker(c) && i % 2 == 0 {
+            v.push(TcpScenario { lp: Loop::AddrShutdown, workers: 0, conns: vec![good(c)], reverse_end: false });
+        }
+        pair(v, Loop::AddrShutdown, c, &reduced2[(i * 5 + 3) % reduced2.len()], i);
+    }
+    let drain_cell = |phase| TConn::Good(Cell { cause: Cause::Drain, phase });
+    let max_n = tier.pick(2, 3);
+    for n in 1..=max_n {
+        let total = PH4.len().pow(n as u32);
+        for code in 0..total {
+            let mut phases = Vec::new();
+            let mut c = code;
+            for _ in 0..n {
+                phases.push(PH4[c % PH4.len()]);
+                c /= PH4.len();
+            }
+            let blocking = phases.iter().any(|p| matches!(p, Phase::Inline | Phase::Connect));
+            for d in [Deadline::Generous, Deadline::Zero] {
+                v.push(TcpScenario { lp: Loop::AddrDrain(d), workers: 4, conns: phases.iter().map(|p| drain_cell(*p)).collect(), reverse_end: false });
+                if !blocking && n == 1 {
+                    v.push(TcpScenario { lp: Loop::AddrDrain(d), workers: 0, conns: phases.iter().map(|p| drain_cell(*p)).collect(), reverse_end: false });
+                }
+            }
+        }
+    }
+    v.push(TcpScenario { lp: Loop::AddrDrain(Deadline::Short), workers: 4, conns: vec![drain_cell(Phase::Off), drain_cell(Phase::Outbound), drain_cell(Phase::Idle)], reverse_end: false });
+    v.push(TcpScenario {
+        lp: Loop::AddrDrain(Deadline::Zero),
+        workers: 4,
+        conns: vec![TConn::Fail(Fail::Stalled), drain_cell(Phase::Idle), TConn::Fail(Fail::WrongPath), drain_cell(Phase::Off), TConn::Fail(Fail::Garbage)],
+        reverse_end: false,
+    });
+    // ---- (4) the co-hosting accept helpers, each followed by its serve_connection*
+    for &h in &HELPERS {
+        let cells = own_cells(h.has_token(), h.has_handshake(), true, &format!("{h:?}"), skipped);
+        for (i, c) in cells.iter().enumerate() {
+            match tier {
+                Tier::Quick => {
+                    let f = TConn::Fail(KINDS[i % KINDS.len()]);
+                    let conns = if (i / KINDS.len()) % 2 == 0 { vec![f, good(c)] } else { vec![good(c), f] };
+                    v.push(TcpScenario { lp: Loop::Accept(h), workers: 4, conns, reverse_end: false });
+                }
+                Tier::Thorough => {
+                    for f in KINDS {
+                        v.push(TcpScenario { lp: Loop::Accept(h), workers: 4, conns: vec![TConn::Fail(f), good(c)], reverse_end: false });
+                        v.push(TcpScenario { lp: Loop::Accept(h), workers: 4, conns: vec![good(c), TConn::Fail(f)], reverse_end: false });
+                    }
+                }
+            }
+        }
+        // every failing handshake kind and three good connections in one accept loop
+        for workers in [4, 0] {
+            v.push(TcpScenario {
+                lp: Loop::Accept(h),
+                workers,
+                conns: vec![
+                    TConn::Fail(Fail::WrongPath),
+                    TConn::Good(Cell { cause: Cause::Close, phase: Phase::Off }),
+                    TConn::Fail(Fail::NotUpgrade),
+                    TConn::Good(Cell { cause: Cause::Drop, phase: Phase::Idle }),
+                    TConn::Fail(Fail::Garbage),
+                    TConn::Good(Cell { cause: Cause::Abort, phase: Phase::Off }),
+                    TConn::Fail(Fail::EarlyClose),
+                ],
+                reverse_end: workers == 0,
+            });
+        }
+    }
+}
+
 type Ws = WebSocketStream<TcpStream>;
 
+/// A client socket for `addr`. Rows that listen on a loopback address of their own also
+/// connect FROM that address, so that their (TIME_WAIT) client ports never occupy the
+/// ephemeral port range of 127.0.0.1, which every bind(0) listener of the machine draws from.
+fn client_socket(addr: SocketAddr) -> std::io::Result<TcpSocket> {
+    let sock = TcpSocket::new_v4()?;
+    if let SocketAddr::V4(a) = addr {
+        if *a.ip() != Ipv4Addr::LOCALHOST {
+            sock.bind(SocketAddr::from((*a.ip(), 0)))?;
+        }
+    }
+    Ok(sock)
+}
+
+async fn tcp_connect(addr: SocketAddr) -> std::io::Result<TcpStream> {
+    client_socket(addr)?.connect(addr).await
+}
+
 async fn ws_connect(addr: SocketAddr, path: &str, alias: &str, small_rcvbuf: bool) -> Result<Ws, String> {
-    let sock = TcpSocket::new_v4().map_err(|e| e.to_string())?;
+    let sock = client_socket(addr).map_err(|e| e.to_string())?;
     if small_rcvbuf {
         sock.set_recv_buffer_size(4096).map_err(|e| e.to_string())?;
     }
@@ -237,11 +605,22 @@ struct TcpConn {
     bigs: u64,
 }
 
+/// What the harness-owned accept loop keeps per accepted TCP stream (in accept order,
+/// which is the scenario's connection order: connections are made one at a time).
+struct Slot {
+    token: ShutdownToken,
+    abort: AbortHandle,
+}
+type Slots = Arc<Mutex<Vec<Slot>>>;
+
 struct Run<'a> {
     w: &'a Arc<World>,
     sc: &'a TcpScenario,
     out: &'a mut Outcome,
     addr: SocketAddr,
+    /// the handshake-aware connect hook is the last connect hook to run
+    has_handshake: bool,
+    slots: Slots,
 }
 
 impl Run<'_> {
@@ -315,7 +694,7 @@ impl Run<'_> {
                     self.stuck(idx, "upgrade for a wrong path was accepted");
                 }
             }
-            Fail::NotUpgrade | Fail::Garbage => match TcpStream::connect(self.addr).await {
+            Fail::NotUpgrade | Fail::Garbage => match tcp_connect(self.addr).await {
                 Ok(mut s) => {
                     let bytes: Vec<u8> = if kind == Fail::NotUpgrade {
                         b"GET /repe HTTP/1.1\r\nHost: localhost\r\nAccept: */*\r\n\r\n".to_vec()
@@ -330,11 +709,11 @@ impl Run<'_> {
                 }
                 Err(e) => self.stuck(idx, &format!("tcp connect: {e}")),
             },
-            Fail::EarlyClose => match TcpStream::connect(self.addr).await {
+            Fail::EarlyClose => match tcp_connect(self.addr).await {
                 Ok(s) => drop(s),
                 Err(e) => self.stuck(idx, &format!("tcp connect: {e}")),
             },
-            Fail::Stalled => match TcpStream::connect(self.addr).await {
+            Fail::Stalled => match tcp_connect(self.addr).await {
                 Ok(s) => c.raw = Some(s),
                 Err(e) => self.stuck(idx, &format!("tcp connect: {e}")),
             },
@@ -377,7 +756,15 @@ impl Run<'_> {
             }
             return c;
         }
-        if !w.wait(WATCHDOG, |l| l.iter().any(|e| matches!(e, Ev::H { conn, .. } if *conn == idx))) {
+        let last_connect_hook = self.has_handshake;
+        let connected = w.wait(WATCHDOG, |l| {
+            l.iter().any(|e| match e {
+                Ev::H { conn, .. } => *conn == idx && last_connect_hook,
+                Ev::C2 { conn, .. } => *conn == idx && !last_connect_hook,
+                _ => false,
+            })
+        });
+        if !connected {
             self.stuck(idx, "connect hooks did not complete");
             return c;
         }
@@ -455,6 +842,18 @@ impl Run<'_> {
                     drop(cl);
                 }
             }
+            // (only in the harness-owned accept loop: the embedder's token / JoinHandle)
+            Cause::Cancel | Cause::Abort => {
+                let t0 = Instant::now();
+                while self.slots.lock().unwrap().len() <= idx && t0.elapsed() < WATCHDOG {
+                    std::thread::yield_now();
+                }
+                match self.slots.lock().unwrap().get(idx) {
+                    Some(slot) if cell.cause == Cause::Cancel => slot.token.cancel(),
+                    Some(slot) => slot.abort.abort(),
+                    None => self.out.stuck.push(format!("the accept loop holds no token / abort handle for tcp conn {idx}")),
+                }
+            }
             _ => {}
         }
         if cell.phase == Phase::Inline {
@@ -497,11 +896,165 @@ impl Run<'_> {
             }
         }
     }
+
+    /// Address-taking rows: wait until the server listens. A TCP connection that is
+    /// closed at once is a failed handshake, which OUR server reports through `on_error`
+    /// (a positive event; a foreign listener on the port would never produce it). The
+    /// server thread announces another address when its bind failed.
+    async fn wait_listening(&mut self, addr_rx: &std::sync::mpsc::Receiver<Result<SocketAddr, String>>) -> bool {
+        let w = self.w.clone();
+        let t0 = Instant::now();
+        loop {
+            let mut again = false;
+            while let Ok(m) = addr_rx.try_recv() {
+                match m {
+                    Ok(a) => {
+                        self.addr = a;
+                        self.out.counters.addr_bind_retries += 1;
+                    }
+                    Err(e) => {
+                        self.stuck(NOCONN, &format!("the server could not bind any reserved port: {e}"));
+                        return false;
+                    }
+                }
+            }
+            if t0.elapsed() > WATCHDOG {
+                self.stuck(NOCONN, "the address-taking server never listened on its reserved port");
+                return false;
+            }
+            match tcp_connect(self.addr).await {
+                Ok(s) => {
+                    drop(s);
+                    self.out.counters.addr_probe_connects += 1;
+                    while !again {
+                        if w.wait(Duration::from_millis(20), |l| l.iter().any(|e| matches!(e, Ev::Error { kind: "handshake" }))) {
+                            return true;
+                        }
+                        if let Ok(m) = addr_rx.try_recv() {
+                            match m {
+                                Ok(a) => {
+                                    self.addr = a;
+                                    self.out.counters.addr_bind_retries += 1;
+                                    again = true;
+                                }
+                                Err(e) => {
+                                    self.stuck(NOCONN, &format!("the server could not bind any reserved port: {e}"));
+                                    return false;
+                                }
+                            }
+                        }
+                        if t0.elapsed() > WATCHDOG {
+                            self.stuck(NOCONN, "the probe connection was never reported by the server");
+                            return false;
+                        }
+                    }
+                }
+                Err(_) => {
+                    self.out.counters.addr_connect_retries += 1;
+                    tokio::time::sleep(Duration::from_millis(1)).await;
+                }
+            }
+        }
+    }
+
+    /// A connection attempt (a complete, valid upgrade request) after the accept loop returned.
+    async fn attempt_after_return(&mut self, idx: usize) {
+        let w = self.w.clone();
+        w.set_starting(Some(idx));
+        self.out.counters.attempts_after_loop_returned += 1;
+        match tokio::time::timeout(WATCHDOG, tcp_connect(self.addr)).await {
+            Ok(Err(_)) => self.out.counters.attempts_after_loop_returned_refused += 1,
+            Ok(Ok(stream)) => {
+                let req = format!("ws://{}/repe", self.addr).into_client_request();
+                let up = match req {
+                    Ok(mut req) => {
+                        if let Ok(v) = w.plans[idx].alias.parse() {
+                            req.headers_mut().insert("x-alias", v);
+                        }
+                        tokio::time::timeout(SHORT_WATCHDOG, tokio_tungstenite::client_async(req, stream)).await
+                    }
+                    Err(e) => {
+                        self.stuck(idx, &format!("request: {e}"));
+                        return;
+                    }
+                };
+                match up {
+                    Ok(Ok(_)) => self.stuck(idx, "a WebSocket upgrade was answered after the accept loop had returned (the listener is supposed to be closed)"),
+                    _ => self.out.counters.attempts_after_loop_returned_refused += 1,
+                }
+            }
+            Err(_) => self.stuck(idx, "tcp connect after the loop returned neither succeeded nor failed"),
+        }
+        w.set_starting(None);
+    }
+
+    /// `serve*_with_shutdown` rows: the shutdown future resolves while every connection is
+    /// in its phase; the loop returns; the connections keep being served.
+    async fn shutdown_midlife(&mut self, conns: &mut [TcpConn], stop1: &tokio::sync::watch::Sender<bool>) {
+        let w = self.w.clone();
+        let sc = self.sc;
+        // (a connection whose first connect hook panics ends itself while it is being accepted;
+        // its disconnect hooks may or may not have been logged yet, so it is never counted)
+        let live = |w: &World, i: usize| {
+            w.plans[i].cause != Cause::ConnPanic1
+                && w.has(|e| matches!(e, Ev::C1 { conn, .. } if *conn == i))
+                && !w.has(|e| matches!(e, Ev::D1 { conn, .. } | Ev::D2 { conn, .. } if *conn == i))
+        };
+        // measured facts at the moment the shutdown future resolves
+        for (i, c) in sc.conns.iter().enumerate() {
+            if let TConn::Good(cell) = c {
+                let plan = &w.plans[i];
+                match cell.phase {
+                    Phase::Inline if w.has(|e| matches!(e, Ev::ParkedInline { conn } if *conn == i)) && plan.inline_gate.await_waiting(1) => self.out.counters.shutdown_with_inline_parked += 1,
+                    Phase::Connect if w.has(|e| matches!(e, Ev::C2Parked { conn } if *conn == i)) && plan.hook_gate.await_waiting(1) => self.out.counters.shutdown_with_hook_parked += 1,
+                    Phase::Off if w.has(|e| matches!(e, Ev::ParkedOff { conn } if *conn == i)) && plan.off_gate.await_waiting(1) => self.out.counters.shutdown_with_off_parked += 1,
+                    Phase::Idle if live(&w, i) => self.out.counters.shutdown_with_idle += 1,
+                    _ => {}
+                }
+            }
+        }
+        let _ = stop1.send(true);
+        if !w.wait(WATCHDOG, |l| l.iter().any(|e| matches!(e, Ev::ShutdownResolved))) {
+            self.stuck(NOCONN, "shutdown future was never polled to completion");
+        }
+        if !w.wait(WATCHDOG, |l| l.iter().any(|e| matches!(e, Ev::LoopReturned))) {
+            self.stuck(NOCONN, "the accept loop did not return after its shutdown future resolved");
+            return;
+        }
+        self.out.counters.shutdown_loops_returned += 1;
+        for (i, c) in sc.conns.iter().enumerate() {
+            if matches!(c, TConn::Good(_)) && live(&w, i) {
+                self.out.counters.live_when_loop_returned += 1;
+            }
+        }
+        self.attempt_after_return(sc.conns.len()).await;
+        // connections whose reader is free answer one more request after the loop returned
+        for (i, c) in sc.conns.iter().enumerate() {
+            if let TConn::Good(cell) = c {
+                if matches!(cell.phase, Phase::Idle | Phase::Off) && conns[i].client.is_some() {
+                    let mut c = std::mem::replace(&mut conns[i], TcpConn::none(i));
+                    self.send(&mut c, request(81, "/probe", 81)).await;
+                    if self.read_until_response(&mut c, 81).await {
+                        self.out.counters.served_after_loop_returned += 1;
+                    } else if live(&w, i) {
+                        self.stuck(i, "a live connection did not answer a request after the accept loop returned");
+                    }
+                    conns[i] = c;
+                }
+            }
+        }
+    }
+}
+
+impl TcpConn {
+    fn none(idx: usize) -> TcpConn {
+        TcpConn { idx, client: None, raw: None, wire: Vec::new(), read_done: true, bigs: 0 }
+    }
 }
 
 pub(crate) fn run(sc: &TcpScenario) -> Outcome {
     let mut out = Outcome::default();
-    let plans: Vec<Plan> = sc
+    let mut plans: Vec<Plan> = sc
         .conns
         .iter()
         .enumerate()
@@ -510,11 +1063,14 @@ pub(crate) fn run(sc: &TcpScenario) -> Outcome {
             TConn::Fail(_) => Plan::new(i, Cause::Close, Phase::Idle),
         })
         .collect();
+    // the connection attempt made after a `*_with_shutdown` loop returned is one more
+    // (never accepted) connection of the scenario
+    let after_idx = sc.conns.len();
+    if sc.lp.shutdown_midlife() {
+        plans.push(Plan::new(after_idx, Cause::Close, Phase::Idle));
+    }
     let w = World::new(plans);
-    let via = match sc.lp {
-        Loop::Listener => "tcp:serve_listener".to_string(),
-        Loop::Drain(d) => format!("tcp:graceful_drain:{d:?}:{}", if sc.workers == 0 { "current-thread" } else { "multi-thread" }),
-    };
+    let via = sc.lp.via(sc.workers);
     out.counters.scenarios += 1;
     out.counters.connections += sc.conns.len() as u64;
     for c in &sc.conns {
@@ -525,11 +1081,16 @@ pub(crate) fn run(sc: &TcpScenario) -> Outcome {
     }
     // ---- the server, on its own runtime thread
     let (addr_tx, addr_rx) = std::sync::mpsc::channel::<Result<SocketAddr, String>>();
-    let (stop_tx, stop_rx) = tokio::sync::oneshot::channel::<()>();
+    // first stop signal: ends the accept loop (abort of its task / its shutdown future);
+    // second one (rows whose loop returns while connections live): lets the runtime go
+    let (stop1, stop1_rx) = tokio::sync::watch::channel(false);
+    let (stop2, stop2_rx) = tokio::sync::watch::channel(false);
+    let slots: Slots = Arc::new(Mutex::new(Vec::new()));
     let server_thread = {
         let w = w.clone();
         let lp = sc.lp;
         let workers = sc.workers;
+        let slots = slots.clone();
         std::thread::Builder::new()
             .name("c15-tcp-server".into())
             .spawn(move || {
@@ -539,49 +1100,7 @@ pub(crate) fn run(sc: &TcpScenario) -> Outcome {
                     tokio::runtime::Builder::new_multi_thread().worker_threads(workers).enable_all().build()
                 }
                 .expect("runtime");
-                rt.block_on(async {
-                    let listener = match tokio::net::TcpListener::bind(("127.0.0.1", 0)).await {
-                        Ok(l) => l,
-                        Err(e) => {
-                            let _ = addr_tx.send(Err(e.to_string()));
-                            return;
-                        }
-                    };
-                    let _ = addr_tx.send(listener.local_addr().map_err(|e| e.to_string()));
-                    let server = build_server(&w);
-                    match lp {
-                        Loop::Listener => {
-                            // run the accept loop as its own task, as `serve` users do
-                            let h = tokio::spawn(async move { server.serve_listener(listener, "/repe").await });
-                            let _ = stop_rx.await;
-                            h.abort();
-                            let _ = h.await;
-                        }
-                        Loop::Drain(d) => {
-                            let timeout = match d {
-                                Deadline::Generous => Duration::from_secs(30),
-                                Deadline::Zero => Duration::ZERO,
-                                Deadline::Short => Duration::from_millis(150),
-                            };
-                            let w2 = w.clone();
-                            let h = tokio::spawn(async move {
-                                server
-                                    .serve_listener_with_graceful_drain(
-                                        listener,
-                                        "/repe",
-                                        async move {
-                                            let _ = stop_rx.await;
-                                            w2.push(Ev::ShutdownResolved);
-                                        },
-                                        timeout,
-                                    )
-                                    .await
-                            });
-                            let _ = h.await;
-                        }
-                    }
-                    w.push(Ev::LoopReturned);
-                });
+                rt.block_on(serve_loop(w, lp, addr_tx, stop1_rx, stop2_rx, slots));
                 drop(rt); // waits for parked off-reader handlers
             })
             .expect("thread")
@@ -590,14 +1109,19 @@ pub(crate) fn run(sc: &TcpScenario) -> Outcome {
         Ok(Ok(a)) => a,
         other => {
             out.stuck.push(format!("listener setup failed: {other:?}"));
+            let _ = stop1.send(true);
+            let _ = stop2.send(true);
             return out;
         }
     };
     let hrt = tokio::runtime::Builder::new_current_thread().enable_all().build().expect("runtime");
     let mut conns: Vec<TcpConn> = Vec::new();
     {
-        let mut run = Run { w: &w, sc, out: &mut out, addr };
+        let mut run = Run { w: &w, sc, out: &mut out, addr, has_handshake: sc.lp.has_handshake(), slots: slots.clone() };
         hrt.block_on(async {
+            if sc.lp.by_addr() && !run.wait_listening(&addr_rx).await {
+                return;
+            }
             for (i, c) in sc.conns.iter().enumerate() {
                 let tc = match c {
                     TConn::Good(cell) => run.bring(i, *cell).await,
@@ -606,74 +1130,76 @@ pub(crate) fn run(sc: &TcpScenario) -> Outcome {
                 conns.push(tc);
             }
             w.set_starting(None);
-            match sc.lp {
-                Loop::Listener => {
-                    for i in 0..sc.conns.len() {
-                        if let TConn::Good(cell) = sc.conns[i] {
-                            let mut c = std::mem::replace(&mut conns[i], TcpConn { idx: i, client: None, raw: None, wire: Vec::new(), read_done: true, bigs: 0 });
-                            run.finish_own(&mut c, cell).await;
-                            conns[i] = c;
-                        }
-                    }
-                    let _ = stop_tx.send(());
-                    if !w.wait(WATCHDOG, |l| l.iter().any(|e| matches!(e, Ev::LoopReturned))) {
-                        run.stuck(NOCONN, "accept loop task did not stop");
-                    }
+            if sc.lp.drain().is_none() {
+                // ---- every good connection ends by its own cause
+                if sc.lp.shutdown_midlife() {
+                    run.shutdown_midlife(&mut conns, &stop1).await;
                 }
-                Loop::Drain(_) => {
-                    for (i, c) in sc.conns.iter().enumerate() {
-                        if let TConn::Good(cell) = c {
-                            let plan = &w.plans[i];
-                            match cell.phase {
-                                Phase::Inline if w.has(|e| matches!(e, Ev::ParkedInline { conn } if *conn == i)) && plan.inline_gate.await_waiting(1) => run.out.counters.inline_parked_at_trigger += 1,
-                                Phase::Connect if w.has(|e| matches!(e, Ev::C2Parked { conn } if *conn == i)) && plan.hook_gate.await_waiting(1) => run.out.counters.hook_parked_at_trigger += 1,
-                                _ => {}
-                            }
-                            w.push(Ev::Ending { conn: i });
-                        }
-                    }
-                    let _ = stop_tx.send(());
-                    if !w.wait(WATCHDOG, |l| l.iter().any(|e| matches!(e, Ev::ShutdownResolved))) {
-                        run.stuck(NOCONN, "shutdown future was never polled to completion");
-                    }
-                    // callbacks that occupy a connection task must return for the drain to finish
-                    for (i, c) in sc.conns.iter().enumerate() {
-                        if let TConn::Good(cell) = c {
-                            if cell.phase == Phase::Inline {
-                                w.plans[i].inline_gate.open();
-                            }
-                            if cell.phase == Phase::Connect {
-                                w.plans[i].hook_gate.open();
-                            }
-                        }
-                    }
-                    if !w.wait(WATCHDOG, |l| l.iter().any(|e| matches!(e, Ev::LoopReturned))) {
-                        run.stuck(NOCONN, "graceful drain never returned");
-                    }
-                    let parked = w.count(|e| matches!(e, Ev::ParkedOff { .. })) - w.count(|e| matches!(e, Ev::WokeOff { .. }));
-                    if parked > 0 {
-                        run.out.counters.drain_returned_with_parked_handler += 1;
-                    }
-                    for (i, c) in sc.conns.iter().enumerate() {
-                        if let TConn::Good(_) = c {
-                            w.sample_after(i);
-                        }
-                    }
-                    for (i, c) in sc.conns.iter().enumerate() {
-                        if let TConn::Good(_) = c {
-                            if w.has(|e| matches!(e, Ev::ParkedOff { conn } if *conn == i)) {
-                                w.plans[i].off_gate.open();
-                                if !w.wait(WATCHDOG, |l| l.iter().any(|e| matches!(e, Ev::WokeOff { conn, .. } if *conn == i))) {
-                                    run.stuck(i, "parked off-reader handler never woke");
-                                }
-                            }
-                        }
-                    }
-                    for i in 0..conns.len() {
-                        let mut c = std::mem::replace(&mut conns[i], TcpConn { idx: i, client: None, raw: None, wire: Vec::new(), read_done: true, bigs: 0 });
-                        run.read_to_end(&mut c).await;
+                let order: Vec<usize> = if sc.reverse_end { (0..sc.conns.len()).rev().collect() } else { (0..sc.conns.len()).collect() };
+                for i in order {
+                    if let TConn::Good(cell) = sc.conns[i] {
+                        let mut c = std::mem::replace(&mut conns[i], TcpConn::none(i));
+                        run.finish_own(&mut c, cell).await;
                         conns[i] = c;
                     }
+                }
+                let _ = stop1.send(true);
+                if !w.wait(WATCHDOG, |l| l.iter().any(|e| matches!(e, Ev::LoopReturned))) {
+                    run.stuck(NOCONN, "accept loop task did not stop");
+                }
+            } else {
+                for (i, c) in sc.conns.iter().enumerate() {
+                    if let TConn::Good(cell) = c {
+                        let plan = &w.plans[i];
+                        match cell.phase {
+                            Phase::Inline if w.has(|e| matches!(e, Ev::ParkedInline { conn } if *conn == i)) && plan.inline_gate.await_waiting(1) => run.out.counters.inline_parked_at_trigger += 1,
+                            Phase::Connect if w.has(|e| matches!(e, Ev::C2Parked { conn } if *conn == i)) && plan.hook_gate.await_waiting(1) => run.out.counters.hook_parked_at_trigger += 1,
+                            _ => {}
+                        }
+                        w.push(Ev::Ending { conn: i });
+                    }
+                }
+                let _ = stop1.send(true);
+                if !w.wait(WATCHDOG, |l| l.iter().any(|e| matches!(e, Ev::ShutdownResolved))) {
+                    run.stuck(NOCONN, "shutdown future was never polled to completion");
+                }
+                // callbacks that occupy a connection task must return for the drain to finish
+                for (i, c) in sc.conns.iter().enumerate() {
+                    if let TConn::Good(cell) = c {
+                        if cell.phase == Phase::Inline {
+                            w.plans[i].inline_gate.open();
+                        }
+                        if cell.phase == Phase::Connect {
+                            w.plans[i].hook_gate.open();
+                        }
+                    }
+                }
+                if !w.wait(WATCHDOG, |l| l.iter().any(|e| matches!(e, Ev::LoopReturned))) {
+                    run.stuck(NOCONN, "graceful drain never returned");
+                }
+                let parked = w.count(|e| matches!(e, Ev::ParkedOff { .. })) - w.count(|e| matches!(e, Ev::WokeOff { .. }));
+                if parked > 0 {
+                    run.out.counters.drain_returned_with_parked_handler += 1;
+                }
+                for (i, c) in sc.conns.iter().enumerate() {
+                    if let TConn::Good(_) = c {
+                        w.sample_after(i);
+                    }
+                }
+                for (i, c) in sc.conns.iter().enumerate() {
+                    if let TConn::Good(_) = c {
+                        if w.has(|e| matches!(e, Ev::ParkedOff { conn } if *conn == i)) {
+                            w.plans[i].off_gate.open();
+                            if !w.wait(WATCHDOG, |l| l.iter().any(|e| matches!(e, Ev::WokeOff { conn, .. } if *conn == i))) {
+                                run.stuck(i, "parked off-reader handler never woke");
+                            }
+                        }
+                    }
+                }
+                for i in 0..conns.len() {
+                    let mut c = std::mem::replace(&mut conns[i], TcpConn::none(i));
+                    run.read_to_end(&mut c).await;
+                    conns[i] = c;
                 }
             }
         });
@@ -684,12 +1210,18 @@ pub(crate) fn run(sc: &TcpScenario) -> Outcome {
         p.inline_gate.open();
         p.hook_gate.open();
     }
+    let _ = stop1.send(true);
+    let _ = stop2.send(true);
     let _ = server_thread.join();
+    if conns.len() != sc.conns.len() {
+        // the server never came up (already reported as harness trouble)
+        return out;
+    }
     let mut facts = Vec::new();
     for (c, tc) in sc.conns.iter().zip(conns.iter()) {
         match c {
             TConn::Good(cell) => {
-                if let Loop::Drain(d) = sc.lp {
+                if let Some(d) = sc.lp.drain() {
                     // aborted stragglers never get the writer's Close frame
                     let got_close = tc.wire.iter().any(|g| matches!(g, Got::Close));
                     // (counted only where the abort cannot race a graceful finish: the
@@ -704,11 +1236,199 @@ pub(crate) fn run(sc: &TcpScenario) -> Outcome {
                         }
                     }
                 }
-                facts.push(ConnFacts { cause: cell.cause, phase: cell.phase, accepted: true, has_handshake: true, wire: tc.wire.clone(), via: via.clone() });
+                facts.push(ConnFacts { cause: cell.cause, phase: cell.phase, accepted: true, has_handshake: sc.lp.has_handshake(), wire: tc.wire.clone(), via: via.clone() });
             }
             TConn::Fail(_) => facts.push(ConnFacts { cause: Cause::Close, phase: Phase::Idle, accepted: false, has_handshake: true, wire: Vec::new(), via: via.clone() }),
         }
     }
-    evaluate(&w, &facts, matches!(sc.lp, Loop::Drain(_)), &mut out);
+    if let Loop::Accept(_) = sc.lp {
+        // what the helpers returned, as seen by the harness-owned accept loop
+        out.counters.accept_helper_returned_ok += w.count(|e| matches!(e, Ev::C1 { .. })) as u64;
+        out.counters.accept_helper_returned_err += w.count(|e| matches!(e, Ev::Error { kind: "handshake" })) as u64;
+    }
+    evaluate(&w, &facts, sc.lp.drain().is_some(), &mut out);
+    if sc.lp.shutdown_midlife() {
+        // "never for a connection whose handshake failed": the attempt made after the loop
+        // returned was never accepted, whatever the listener did with it
+        let log = w.snapshot();
+        let d = log.iter().filter(|e| e.conn() == after_idx && matches!(e, Ev::D1 { .. } | Ev::D2 { .. })).count();
+        let c = log.iter().filter(|e| e.conn() == after_idx && matches!(e, Ev::C1 { .. } | Ev::C2 { .. } | Ev::H { .. })).count();
+        if d > 0 {
+            out.bad.push(Bad {
+                key: "C15:disconnect-hook-ran-for-connection-refused-after-loop-returned".into(),
+                what: format!("{d} disconnect hook call(s) for a connection attempt made after the accept loop had returned, which no client ever saw accepted [via={via}]"),
+            });
+        }
+        if c > 0 {
+            bump(&mut out.counters.notes, "connect hook ran for a connection attempt made after the accept loop returned");
+        }
+    }
     out
+}
+
+fn is_bind_failure(e: &std::io::Error) -> bool {
+    matches!(e.kind(), std::io::ErrorKind::AddrInUse | std::io::ErrorKind::AddrNotAvailable | std::io::ErrorKind::PermissionDenied)
+}
+
+async fn stopped(mut rx: tokio::sync::watch::Receiver<bool>) {
+    let _ = rx.wait_for(|v| *v).await;
+}
+
+/// Everything that runs on the server runtime.
+async fn serve_loop(
+    w: Arc<World>,
+    lp: Loop,
+    addr_tx: std::sync::mpsc::Sender<Result<SocketAddr, String>>,
+    stop1: tokio::sync::watch::Receiver<bool>,
+    stop2: tokio::sync::watch::Receiver<bool>,
+    slots: Slots,
+) {
+    let ip = own_loopback_address();
+    let timeout_of = |d: Deadline| match d {
+        Deadline::Generous => Duration::from_secs(30),
+        Deadline::Zero => Duration::ZERO,
+        Deadline::Short => Duration::from_millis(150),
+    };
+    let shutdown_future = |w: &Arc<World>| {
+        let (w2, stop) = (w.clone(), stop1.clone());
+        async move {
+            stopped(stop).await;
+            w2.push(Ev::ShutdownResolved);
+        }
+    };
+    if lp.by_addr() {
+        // reserve a free port (bind port 0, read it, drop the listener); a bind failure of
+        // the server is a machinery condition: another port is reserved and announced
+        let mut attempt = 0;
+        loop {
+            attempt += 1;
+            let port = match std::net::TcpListener::bind((ip, 0)).and_then(|l| l.local_addr()) {
+                Ok(a) => a.port(),
+                Err(e) => {
+                    let _ = addr_tx.send(Err(e.to_string()));
+                    return;
+                }
+            };
+            let addr = SocketAddr::from((ip, port));
+            let _ = addr_tx.send(Ok(addr));
+            let server = build_server(&w);
+            let res: std::io::Result<()> = match lp {
+                Loop::Addr => {
+                    // run the accept loop as its own task, as `serve` users do
+                    let mut h = tokio::spawn(async move { server.serve(addr, "/repe").await });
+                    tokio::select! {
+                        r = &mut h => r.unwrap_or(Ok(())),
+                        _ = stopped(stop1.clone()) => {
+                            h.abort();
+                            let _ = h.await;
+                            Ok(())
+                        }
+                    }
+                }
+                Loop::AddrShutdown => {
+                    let fut = shutdown_future(&w);
+                    tokio::spawn(async move { server.serve_with_shutdown(addr, "/repe", fut).await }).await.unwrap_or(Ok(()))
+                }
+                Loop::AddrDrain(d) => {
+                    let fut = shutdown_future(&w);
+                    tokio::spawn(async move { server.serve_with_graceful_drain(addr, "/repe", fut, timeout_of(d)).await }).await.unwrap_or(Ok(()))
+                }
+                _ => unreachable!(),
+            };
+            match res {
+                Err(e) if is_bind_failure(&e) && attempt < 8 && !*stop1.borrow() => continue,
+                Err(e) if is_bind_failure(&e) => {
+                    let _ = addr_tx.send(Err(e.to_string()));
+                    return;
+                }
+                _ => break,
+            }
+        }
+    } else {
+        let listener = match tokio::net::TcpListener::bind((ip, 0)).await {
+            Ok(l) => l,
+            Err(e) => {
+                let _ = addr_tx.send(Err(e.to_string()));
+                return;
+            }
+        };
+        let _ = addr_tx.send(listener.local_addr().map_err(|e| e.to_string()));
+        match lp {
+            Loop::Listener => {
+                let server = build_server(&w);
+                // run the accept loop as its own task, as `serve` users do
+                let h = tokio::spawn(async move { server.serve_listener(listener, "/repe").await });
+                stopped(stop1.clone()).await;
+                h.abort();
+                let _ = h.await;
+            }
+            Loop::Drain(d) => {
+                let server = build_server(&w);
+                let fut = shutdown_future(&w);
+                let h = tokio::spawn(async move { server.serve_listener_with_graceful_drain(listener, "/repe", fut, timeout_of(d)).await });
+                let _ = h.await;
+            }
+            Loop::ListenerShutdown => {
+                let server = build_server(&w);
+                let fut = shutdown_future(&w);
+                let h = tokio::spawn(async move { server.serve_listener_with_shutdown(listener, "/repe", fut).await });
+                let _ = h.await;
+            }
+            Loop::Accept(helper) => {
+                // the embedder's own accept loop (one-port co-hosting shape)
+                let shared = build_server(&w).into_shared();
+                loop {
+                    tokio::select! {
+                        acc = listener.accept() => {
+                            let Ok((stream, _)) = acc else { break };
+                            let token = ShutdownToken::new();
+                            let (sh, w2, tk) = (shared.clone(), w.clone(), token.clone());
+                            let h = tokio::spawn(async move {
+                                let limits = sh.limits();
+                                // None: the helper returned Err (no serve_connection* call follows)
+                                let served = match helper {
+                                    Helper::Accept => match WebSocketServer::accept(stream, "/repe").await {
+                                        Ok(ws) => Some(sh.serve_connection(ws).await),
+                                        Err(_) => None,
+                                    },
+                                    Helper::AcceptWithLimits => match WebSocketServer::accept_with_limits(stream, "/repe", limits).await {
+                                        Ok(ws) => Some(sh.serve_connection_with_cancel(ws, &tk).await),
+                                        Err(_) => None,
+                                    },
+                                    Helper::AcceptWithHandshake => match WebSocketServer::accept_with_handshake(stream, "/repe").await {
+                                        Ok((ws, hs)) => Some(sh.serve_connection_with_handshake(ws, hs).await),
+                                        Err(_) => None,
+                                    },
+                                    Helper::AcceptWithHandshakeAndLimits => match WebSocketServer::accept_with_handshake_and_limits(stream, "/repe", limits).await {
+                                        Ok((ws, hs)) => Some(sh.serve_connection_with_cancel_and_handshake(ws, hs, &tk).await),
+                                        Err(_) => None,
+                                    },
+                                    Helper::SharedAccept => match sh.accept(stream, "/repe").await {
+                                        Ok(ws) => Some(sh.serve_connection_with_cancel(ws, &tk).await),
+                                        Err(_) => None,
+                                    },
+                                    Helper::SharedAcceptWithHandshake => match sh.accept_with_handshake(stream, "/repe").await {
+                                        Ok((ws, hs)) => Some(sh.serve_connection_with_handshake(ws, hs).await),
+                                        Err(_) => None,
+                                    },
+                                };
+                                if served.is_none() {
+                                    w2.push(Ev::Error { kind: "handshake" });
+                                }
+                            });
+                            slots.lock().unwrap().push(Slot { token, abort: h.abort_handle() });
+                        }
+                        _ = stopped(stop1.clone()) => break,
+                    }
+                }
+            }
+            _ => unreachable!(),
+        }
+    }
+    w.push(Ev::LoopReturned);
+    if lp.shutdown_midlife() {
+        // the accepted connections are detached tasks of this runtime: keep it alive
+        // until the harness has ended each of them
+        stopped(stop2).await;
+    }
 }
